@@ -91,6 +91,13 @@ def native_eval(c):
                                       "function": f.get("function"), "clause": f.get("clause", ""), "cex": f.get("cex"),
                                       "rendered": f["message"]})
             r["status"] = "ok" if not r["failures"] else "violation"
+            if c.get("bounded"):
+                # a bounded stand-in is never counted among the proved obligations
+                r["backend"] = "native-bounded"
+                r["bounded"] = ["%s: %s; explored %d, held %d" % (c["name"], c["bounded"], j["obligations"], j["discharged"])]
+                r["bounded_explored"] = j["obligations"]
+                r["obligations"] = 0
+                r["discharged"] = 0
     if r["status"] == "undecided":
         r["reason"] = "native-eval produced no result: " + (p.stderr or p.stdout)[-500:]
     r["wall_s"] = time.time() - t0
